@@ -35,6 +35,7 @@ type rpf struct {
 	stHook   func(r *rpf, lhs ast.Expr, v *Val) bool // store through an index/selector expression, recorded as an effect
 	steps    int
 	inTableLoop int
+	multiHook func(call *ast.CallExpr, callee types.Object) ([]*Val, bool)
 }
 
 func vint(i int64) *Val  { return &Val{K: VInt, I: i} }
@@ -52,6 +53,7 @@ func (c *Ctx) rpfCall(fd *ast.FuncDecl, p *packages.Package, args []*Val, hooks 
 		r.selHook = hooks.selHook
 		r.idxHook = hooks.idxHook
 		r.stHook = hooks.stHook
+		r.multiHook = hooks.multiHook
 	}
 	defer func() {
 		if x := recover(); x != nil {
@@ -447,6 +449,11 @@ func valEq(a, b *Val) bool {
 
 func (r *rpf) callMulti(call *ast.CallExpr) []*Val {
 	callee := typeutil.Callee(r.p.TypesInfo, call)
+	if r.multiHook != nil {
+		if vals, ok := r.multiHook(call, callee); ok {
+			return vals
+		}
+	}
 	if fn, ok := callee.(*types.Func); ok {
 		if fd := r.c.funcDecl[fn]; fd != nil && fd.Recv == nil {
 			var args []*Val
@@ -995,6 +1002,18 @@ func (c *Ctx) rpfCallWithGlobals(fd *ast.FuncDecl, p *packages.Package, args []*
 	}
 	for k, v := range globals {
 		h.env[k] = v
+	}
+	return c.rpfCall(fd, p, args, h)
+}
+
+// rpfCallMulti folds fd with a hook that supplies the results of multi-value calls (e.g. a scripted bit source).
+func (c *Ctx) rpfCallMulti(fd *ast.FuncDecl, p *packages.Package, args []*Val, hooks *rpf, multi func(call *ast.CallExpr, callee types.Object) ([]*Val, bool)) ([]*Val, error) {
+	h := &rpf{env: map[types.Object]*Val{}, multiHook: multi}
+	if hooks != nil {
+		h.callHook, h.selHook, h.idxHook, h.stHook = hooks.callHook, hooks.selHook, hooks.idxHook, hooks.stHook
+		for k, v := range hooks.env {
+			h.env[k] = v
+		}
 	}
 	return c.rpfCall(fd, p, args, h)
 }
